@@ -84,7 +84,9 @@ def generate(rng, seed, part):
         a = rng.randrange(nodes)
         if r < 0.14:
             ops.append({"op": "fill", "a": a, "i": rng.randrange(24),
-                        "w": rng.choice([None, None, 1, 2, 0.5, 0.25, 1.5, 0.1])})
+                        "w": rng.choice([None, None, 1, 2, 0.5, 0.25, 1.5, 0.1]),
+                        "wt": rng.choice([None, None, None, "np.float32", "np.float16", "np.float64", "np.longdouble",
+                                          "np.int32", "np.int64"])})
         elif r < 0.28:
             ops.append({"op": "fill_n", "a": a, "idx": [rng.randrange(24) for _ in range(rng.randint(0, 5))],
                         "wkind": rng.choice(["none", "none", "int", "float", "float32", "int32"])})
@@ -94,7 +96,8 @@ def generate(rng, seed, part):
             nodes += 1
         elif r < 0.52:
             ops.append({"op": rng.choice(["mul", "imul", "div", "idiv"]), "a": a, "out": nodes,
-                        "t": rng.choice(["int", "float", "np.int32", "np.float32", "np.float64"]),
+                        "t": rng.choice(["int", "float", "np.int32", "np.float32", "np.float64", "np.longdouble",
+                                         "np.float16"]),
                         "c": rng.choice([2, 3, 0.5, 1.5, 4])})
             nodes += 1
         elif r < 0.58:
@@ -231,6 +234,12 @@ def execute(plan, ctx):
         if o == "fill":
             v = entries[op["i"] % len(entries)]
             w = op["w"]
+            if w is not None and op.get("wt"):
+                npt = getattr(np, op["wt"].split(".")[1])
+                if "int" in op["wt"]:
+                    w = npt(int(w)) if float(w).is_integer() else w
+                else:
+                    w = npt(w)  # a numpy floating scalar (only np.float64 is a subclass of float)
             ok, res = attempt(a.fill, v) if w is None else attempt(a.fill, v, w)
             ctx.ev("n", f"fill:{type(w).__name__}", op["a"], "ok" if ok else exc_tag(res))
             ctx.abstract("fill", str(pre_dtype), type(w).__name__, ok)
@@ -238,14 +247,14 @@ def execute(plan, ctx):
                 ctx.probe("fill_failed:" + type(res).__name__)
                 continue
             consistent(ctx, a, "fill")
-            fw = isinstance(w, float)
+            fw = isinstance(w, (float, np.floating))
             if fw and pre_dtype.kind == "i":
                 ctx.fault("float_weight_into_int")
             kind = np.dtype(a.dtype).kind
             if (not fw and kind != pre_dtype.kind) or (fw and kind != "f"):
                 ctx.violation("C13/kind-rules", f"C13/fill-kind/{pre_dtype.kind}->{kind}/w={type(w).__name__}",
                               f"fill(weight={w!r}) on dtype {pre_dtype} gave dtype {a.dtype}")
-            ww = 1 if w is None else w
+            ww = 1 if w is None else float(w)
             got = float(a.total) + sum(x for x in missed_tuple(a) if not math.isnan(x))
             want = pre_total + pre_miss + ww
             if miss_ok and post_miss_ok(a) and math.isfinite(want) and not abs(got - want) <= 8 * eps_of(a.dtype, pre_dtype) * (abs(want) + 1):
